@@ -26,6 +26,7 @@ def run_standard(chk, spec, replay=None):
     recs = []
     if hok:
         args = ([spec["harness_prop"]] if hbin == "vharness" else []) + ["--seed", str(chk.seed), "--tier", chk.tier]
+        args += spec.get("harness_args", [])
         if replay:
             args += ["--replay", replay]
         if spec.get("shared_run") and not replay:
@@ -43,7 +44,8 @@ def run_standard(chk, spec, replay=None):
     # 5. correspondence
     bad, errors = ([], [])
     if ok and cases:
-        bad, errors = chk.coq_eval(spec["header"], cases, timeout=spec.get("coq_timeout", 1500))
+        ekw = {"per_shard": spec["per_shard"]} if spec.get("per_shard") else {}
+        bad, errors = chk.coq_eval(spec["header"], cases, timeout=spec.get("coq_timeout", 1500), **ekw)
         for e in errors:
             proof_broken.append("a cases shard failed to evaluate: " + e["output"][-600:])
     structure_only = [b for b in bad if b[1] == 2]
